@@ -15,20 +15,40 @@ namespace LinVerif.Props.C07
 set_option maxRecDepth 100000
 open LinVerif.NodeRecovery
 
+/-! ### sequences and acknowledgements
+
+`WriteRows` looks the memory database up under the family mutex and registers as its writer
+(`AcquireWrite`) only afterwards (`Cfg.atomicAcquire = false`, regenerated from /repo). A complete
+`Flush` of that memory database in between does not wait for the write; the rows then go into a
+memory database nobody references. The full-strength statements below are therefore proved for the
+shape in which the registration happens inside the mutex section (`atomicAcquire = true`, the shape
+of `fixes/C07-writeRows-acquire-under-mutex.patch`), the `…_partial` versions for BOTH shapes under
+the explicit hypothesis `GapFree` (no `freeze` while the in-flight write has taken its memory
+database but is not registered), and `Neg.gap_loses_entry` refutes `no_loss` for the current shape. -/
+
+/-- hypothesis-free form of `GapFree` for the repaired shape -/
+theorem gapFree_init (cfg : Cfg) (hc : cfg.atomicAcquire = true) (evs : List Ev) : GapFree cfg St.init evs :=
+  gapFree_of_atomic cfg hc evs (by intro fl hfl; simp [St.init] at hfl)
+
 /-- The log's acknowledged position never runs ahead of the sequence stored durably with the
 flushed data — in every reachable state, hence in every crash image. -/
-theorem ack_le_stored (cfg : Cfg) (evs : List Ev) :
+theorem ack_le_stored_partial (cfg : Cfg) (evs : List Ev) (hg : GapFree cfg St.init evs) :
     (run cfg St.init evs).groupAck ≤ ov (run cfg St.init evs).stored :=
-  (inv_run cfg evs inv_init).ack_stored
+  (inv_run cfg evs hg inv_init).ack_stored
+
+theorem ack_le_stored (cfg : Cfg) (hc : cfg.atomicAcquire = true) (evs : List Ev) :
+    (run cfg St.init evs).groupAck ≤ ov (run cfg St.init evs).stored :=
+  ack_le_stored_partial cfg evs (gapFree_init cfg hc evs)
 
 /-- Every appended log entry is contained in a durable data file (with its own payload), or is
-still in the log above the acknowledged position (so the rewound replicator consumes it again). -/
-theorem no_loss (cfg : Cfg) (evs : List Ev) (s : Int)
+still in the (existing) log above the acknowledged position, so the rewound replicator consumes it again. -/
+theorem no_loss_partial (cfg : Cfg) (evs : List Ev) (hg : GapFree cfg St.init evs) (s : Int)
     (h0 : 0 ≤ s) (_hs : s ≤ (run cfg St.init evs).appended) :
     (∃ r ∈ fileRows (run cfg St.init evs), r.seq = s ∧
         (run cfg St.init evs).log[s.toNat]? = some (r.metric, r.tagv)) ∨
-    ((run cfg St.init evs).groupAck < s ∧ (run cfg St.init evs).gcLow ≤ s) := by
-  have h := inv_run cfg evs inv_init
+    ((run cfg St.init evs).groupAck < s ∧ (run cfg St.init evs).gcLow ≤ s ∧
+      (run cfg St.init evs).walGone = false) := by
+  have h := inv_run cfg evs hg inv_init
   by_cases hk : s ≤ (run cfg St.init evs).groupAck
   · left
     obtain ⟨r, hr, hrs⟩ := h.stored_files s h0 (by have := h.ack_stored; omega)
@@ -36,7 +56,28 @@ theorem no_loss (cfg : Cfg) (evs : List Ev) (s : Int)
     exact ⟨r, hr, hrs, by rw [← hrs]; exact hl⟩
   · right
     have := h.gc_ack
-    omega
+    refine ⟨by omega, by omega, ?_⟩
+    cases hw : (run cfg St.init evs).walGone with
+    | false => rfl
+    | true => have := (h.wal_gone hw).1; omega
+
+theorem no_loss (cfg : Cfg) (hc : cfg.atomicAcquire = true) (evs : List Ev) (s : Int)
+    (h0 : 0 ≤ s) (hs : s ≤ (run cfg St.init evs).appended) :
+    (∃ r ∈ fileRows (run cfg St.init evs), r.seq = s ∧
+        (run cfg St.init evs).log[s.toNat]? = some (r.metric, r.tagv)) ∨
+    ((run cfg St.init evs).groupAck < s ∧ (run cfg St.init evs).gcLow ≤ s ∧
+      (run cfg St.init evs).walGone = false) :=
+  no_loss_partial cfg evs (gapFree_init cfg hc evs) s h0 hs
+
+/-- The WAL garbage collector removes a log directory only when every entry of it is acknowledged,
+i.e. (by `ack_le_stored` / `no_loss`) contained in durable data files. -/
+theorem wal_gone_all_flushed (cfg : Cfg) (evs : List Ev) (hg : GapFree cfg St.init evs)
+    (hw : (run cfg St.init evs).walGone = true) (s : Int) (h0 : 0 ≤ s)
+    (hs : s ≤ (run cfg St.init evs).appended) :
+    ∃ r ∈ fileRows (run cfg St.init evs), r.seq = s := by
+  rcases no_loss_partial cfg evs hg s h0 hs with ⟨r, hr, hrs, _⟩ | ⟨_, _, h3⟩
+  · exact ⟨r, hr, hrs⟩
+  · rw [hw] at h3; cases h3
 
 /-- "hence replayed": the replicator restarts exactly behind the acknowledged position. -/
 theorem rewind_resumes_after_ack (cfg : Cfg) (st : St) (h : st.phase = .opened) :
@@ -46,33 +87,45 @@ theorem rewind_resumes_after_ack (cfg : Cfg) (st : St) (h : st.phase = .opened) 
 
 /-- An entry at or below the durably stored sequence is never applied again: whenever a replica
 write has passed `ValidateSequence`, its sequence is above the stored one. -/
-theorem no_replay_below (cfg : Cfg) (evs : List Ev) (fl : InFlight)
+theorem no_replay_below_partial (cfg : Cfg) (evs : List Ev) (hg : GapFree cfg St.init evs) (fl : InFlight)
     (h : (run cfg St.init evs).inflight = some fl) :
     ov (run cfg St.init evs).stored < fl.seq := by
-  have hi := inv_run cfg evs inv_init
+  have hi := inv_run cfg evs hg inv_init
   obtain ⟨hr, _, hq, _, _⟩ := hi.infl fl h
   have := hi.stored_seq (by rw [hr]; decide)
   omega
 
+theorem no_replay_below (cfg : Cfg) (hc : cfg.atomicAcquire = true) (evs : List Ev) (fl : InFlight)
+    (h : (run cfg St.init evs).inflight = some fl) :
+    ov (run cfg St.init evs).stored < fl.seq :=
+  no_replay_below_partial cfg evs (gapFree_init cfg hc evs) fl h
+
 /-- File-level form of "never applied again": a durable data file only ever contains rows of entries
 ABOVE the sequence that the manifest had stored before that file was committed, and the stored
 sequence is the one of the newest record that carries one. -/
-theorem no_replay_below_files (cfg : Cfg) (evs : List Ev) :
+theorem no_replay_below_files_partial (cfg : Cfg) (evs : List Ev) (hg : GapFree cfg St.init evs) :
     FilesAbove (run cfg St.init evs).files ∧
     (run cfg St.init evs).stored = latestStored (run cfg St.init evs).files :=
-  have h := inv2_run cfg evs inv_init inv2_init
+  have h := inv2_run cfg evs hg inv_init inv2_init
   ⟨h.files_above, h.stored_eq⟩
 
-/-- "... or still in the log and replayed": from ANY reachable idle running state (in particular
-right after `recover` + `rewind`), running the replica loop to the end of the log makes every
-appended entry present in the node's storage (a data file or a memory database), with its own payload. -/
-theorem replay_complete (cfg : Cfg) (evs : List Ev) (n : Nat)
+theorem no_replay_below_files (cfg : Cfg) (hc : cfg.atomicAcquire = true) (evs : List Ev) :
+    FilesAbove (run cfg St.init evs).files ∧
+    (run cfg St.init evs).stored = latestStored (run cfg St.init evs).files :=
+  no_replay_below_files_partial cfg evs (gapFree_init cfg hc evs)
+
+/-- "... or still in the log and replayed": from ANY reachable idle running state whose log still
+exists (in particular right after `recover` + `rewind`), running the replica loop to the end of the
+log makes every appended entry present in the node's storage (a data file or a memory database),
+with its own payload. -/
+theorem replay_complete_partial (cfg : Cfg) (evs : List Ev) (hg : GapFree cfg St.init evs) (n : Nat)
     (hr : (run cfg St.init evs).phase = .running) (hn : (run cfg St.init evs).inflight = none)
+    (hw : (run cfg St.init evs).walGone = false)
     (hd : (run cfg St.init evs).appended - (run cfg St.init evs).consumed ≤ n)
     (s : Int) (h0 : 0 ≤ s) (hs : s ≤ (run cfg St.init evs).appended) :
     ∃ r, Stored (run cfg (run cfg St.init evs) (rounds n)) r ∧ r.seq = s ∧
       (run cfg St.init evs).log[s.toNat]? = some (r.metric, r.tagv) := by
-  obtain ⟨hi, hp, hin, hl, hc⟩ := rounds_catch_up cfg n (inv_run cfg evs inv_init) hr hn hd
+  obtain ⟨hi, hp, hin, hl, hc⟩ := rounds_catch_up cfg n (inv_run cfg evs hg inv_init) hr hn hw hd
   have happ : (run cfg (run cfg St.init evs) (rounds n)).appended = (run cfg St.init evs).appended := by
     simp [St.appended, hl]
   have hidle := hi.idle hp hin
@@ -80,13 +133,24 @@ theorem replay_complete (cfg : Cfg) (evs : List Ev) (n : Nat)
   obtain ⟨_, hlog⟩ := hi.rows_log r hr1
   exact ⟨r, hr1, hr2, by rw [← hl, ← hr2]; exact hlog⟩
 
+theorem replay_complete (cfg : Cfg) (hc : cfg.atomicAcquire = true) (evs : List Ev) (n : Nat)
+    (hr : (run cfg St.init evs).phase = .running) (hn : (run cfg St.init evs).inflight = none)
+    (hw : (run cfg St.init evs).walGone = false)
+    (hd : (run cfg St.init evs).appended - (run cfg St.init evs).consumed ≤ n)
+    (s : Int) (h0 : 0 ≤ s) (hs : s ≤ (run cfg St.init evs).appended) :
+    ∃ r, Stored (run cfg (run cfg St.init evs) (rounds n)) r ∧ r.seq = s ∧
+      (run cfg St.init evs).log[s.toNat]? = some (r.metric, r.tagv) :=
+  replay_complete_partial cfg evs (gapFree_init cfg hc evs) n hr hn hw hd s h0 hs
+
 /-- The recovered family rejects every sequence at or below the recovered (persisted) one. -/
 theorem recovered_rejects_persisted (cfg : Cfg) (st : St) (hd : st.phase = .down)
     (x s : Int) (hx : st.stored = some x) (hs : s ≤ x) :
     validSeq (step cfg st .recover) s = false := by
   have : (step cfg st .recover).seq = some x := by
-    simp [step, hd, doRecover]
-    rw [ackOpt_eq]; simpa using hx
+    simp only [step, hd, if_true, doRecover]
+    split
+    · simpa using hx
+    · rw [ackOpt_eq]; simpa using hx
   simp [validSeq, this]; omega
 
 
@@ -129,27 +193,27 @@ theorem flush_prefix_establishes (cfg : Cfg) (st : St) (hr : st.phase = .running
 /-- non-vacuity: a history with appends, replication, two complete flush rounds in the code's order
 (new names before each round), a crash in between and recovery is disciplined — and resolves. -/
 def goodTrace : List Ev :=
-  [.append 0 0, .applyBegin, .applyWrite, .applyCommit, .append 1 0, .applyBegin, .applyWrite, .applyCommit] ++
+  [.append 0 0, .applyBegin, .applyTake, .applyAcquire, .applyWrite, .applyCommit, .append 1 0, .applyBegin, .applyTake, .applyAcquire, .applyWrite, .applyCommit] ++
   flushRound ++
-  [.append 0 1, .append 2 5, .applyBegin, .applyWrite, .applyCommit, .crash, .recover, .rewind,
-   .applyBegin, .applyWrite, .applyCommit, .applyBegin, .applyWrite, .applyCommit] ++
+  [.append 0 1, .append 2 5, .applyBegin, .applyTake, .applyAcquire, .applyWrite, .applyCommit, .crash, .recover, .rewind,
+   .applyBegin, .applyTake, .applyAcquire, .applyWrite, .applyCommit, .applyBegin, .applyTake, .applyAcquire, .applyWrite, .applyCommit] ++
   flushRound ++ [.logGC 2, .crash, .recover, .rewind]
 
-example : Disciplined ⟨false⟩ St.init goodTrace := by decide
-example : (run ⟨false⟩ St.init goodTrace).groupAck = 3 ∧ (run ⟨false⟩ St.init goodTrace).stored = some 3 ∧
-    (fileRows (run ⟨false⟩ St.init goodTrace)).length = 4 ∧ (run ⟨false⟩ St.init goodTrace).gcLow = 2 := by decide
-example : Resolves (run ⟨false⟩ St.init goodTrace) := resolves_partial _ _ (by decide)
+example : Disciplined ⟨false, false⟩ St.init goodTrace := by decide
+example : (run ⟨false, false⟩ St.init goodTrace).groupAck = 3 ∧ (run ⟨false, false⟩ St.init goodTrace).stored = some 3 ∧
+    (fileRows (run ⟨false, false⟩ St.init goodTrace)).length = 4 ∧ (run ⟨false, false⟩ St.init goodTrace).gcLow = 2 := by decide
+example : Resolves (run ⟨false, false⟩ St.init goodTrace) := resolves_partial _ _ (by decide)
 
 /-- non-vacuity of `replay_complete`: a crash with two unapplied / unflushed entries; two rounds of
 the replica loop bring both back -/
 def lossyTrace : List Ev :=
-  [.append 0 0, .applyBegin, .applyWrite, .applyCommit] ++ flushRound ++
-  [.append 1 1, .applyBegin, .applyWrite, .applyCommit, .append 2 2, .crash, .recover, .rewind]
+  [.append 0 0, .applyBegin, .applyTake, .applyAcquire, .applyWrite, .applyCommit] ++ flushRound ++
+  [.append 1 1, .applyBegin, .applyTake, .applyAcquire, .applyWrite, .applyCommit, .append 2 2, .crash, .recover, .rewind]
 
-example : (run ⟨false⟩ St.init lossyTrace).phase = .running ∧ (run ⟨false⟩ St.init lossyTrace).inflight = none ∧
-    (run ⟨false⟩ St.init lossyTrace).appended - (run ⟨false⟩ St.init lossyTrace).consumed ≤ 2 ∧
-    (run ⟨false⟩ St.init lossyTrace).memMut = [] ∧
-    (run ⟨false⟩ St.init (lossyTrace ++ rounds 2)).memMut = [⟨2, 2, 2⟩, ⟨1, 1, 1⟩] := by decide
+example : (run ⟨false, false⟩ St.init lossyTrace).phase = .running ∧ (run ⟨false, false⟩ St.init lossyTrace).inflight = none ∧
+    (run ⟨false, false⟩ St.init lossyTrace).appended - (run ⟨false, false⟩ St.init lossyTrace).consumed ≤ 2 ∧
+    (run ⟨false, false⟩ St.init lossyTrace).memMut = [] ∧
+    (run ⟨false, false⟩ St.init (lossyTrace ++ rounds 2)).memMut = [⟨2, 2, 2⟩, ⟨1, 1, 1⟩] := by decide
 
 /-! ### generated facts: the model's event order is the code's call order -/
 
@@ -200,7 +264,7 @@ theorem table_and_sequence_one_record :
 
 def applyEv : String → List Ev
   | "family.ValidateSequence" => [.applyBegin]
-  | "family.WriteRows" => [.applyWrite]
+  | "family.WriteRows" => [.applyTake, .applyAcquire, .applyWrite]
   | "defer:family.CommitSequence" => [.applyCommit]
   | _ => []
 
@@ -218,8 +282,12 @@ open LinVerif.Generated.C07 in
 theorem replica_loop_and_writeRows_order :
     partitionReplicaCalls.filter (fun s => s ∈ ["replicator.Consume", "replicator.GetMessage", "replicator.IgnoreMessage", "replicator.Replica"])
       = ["replicator.Consume", "replicator.GetMessage", "replicator.IgnoreMessage", "replicator.Replica"] ∧
-    writeRowsCalls.filter (fun s => s ∈ ["f.GetOrCreateMemoryDatabase", "db.AcquireWrite", "db.WriteRow", "row.Wait", "defer:db.CompleteWrite"])
-      = ["f.GetOrCreateMemoryDatabase", "db.AcquireWrite", "db.WriteRow", "row.Wait", "defer:db.CompleteWrite"] := by
+    writeRowsCalls.filter (fun s => s ∈ ["db.WriteRow", "row.Wait", "defer:db.CompleteWrite"])
+      = ["db.WriteRow", "row.Wait", "defer:db.CompleteWrite"] ∧
+    -- the model's `applyTake` / `applyAcquire` are the two calls of the current shape
+    (atomicAcquire = false →
+      writeRowsCalls.filter (fun s => s ∈ ["f.GetOrCreateMemoryDatabase", "db.AcquireWrite", "db.WriteRow"])
+        = ["f.GetOrCreateMemoryDatabase", "db.AcquireWrite", "db.WriteRow"]) := by
   decide
 
 open LinVerif.Generated.C07 in
@@ -240,17 +308,30 @@ theorem dictionary_flush_order :
     indexFlushCalls.filter (fun s => s ∈ ["metricInverted.flush", "forward.flush", "inverted.flush", "series.Flush", "family.Flush"]) =
       ["metricInverted.flush", "forward.flush", "inverted.flush", "series.Flush"] := by decide
 
+open LinVerif.Generated.C07 in
+/-- the WAL garbage collector: `destroy` removes a partition's directory only after `IsExpire`, whose
+predicate is every consumer group's `IsEmpty`, and `IsEmpty` compares the APPENDED sequence with the
+ACKNOWLEDGED one (the model's guard of `walExpire`); `recovery` rebuilds partitions from the directories -/
+theorem wal_gc_predicate :
+    groupIsEmptyExpr = "qh <= f.AcknowledgedSeq()" ∧
+    isExpireCalls.filter (fun s => s ∈ ["log.Sync", "log.Queue().GC", "consumerGroup.IsEmpty"])
+      = ["log.Sync", "log.Queue().GC", "consumerGroup.IsEmpty"] ∧
+    walDestroyCalls.filter (fun s => s ∈ ["log.IsExpire", "log.Stop", "log.Close", "removeDirFn"])
+      = ["log.IsExpire", "log.Stop", "log.Close", "removeDirFn", "removeDirFn"] ∧
+    walRecoveryCalls.filter (fun s => s ∈ ["w.GetOrCreatePartition", "partition.recovery"])
+      = ["w.GetOrCreatePartition", "partition.recovery"] := by decide
+
 /-- the configuration the driver runs the model with: the PrepareFlush shape found in /repo -/
-def codeCfg : Cfg := ⟨LinVerif.Generated.C07.swapOnEmpty⟩
+def codeCfg : Cfg := ⟨LinVerif.Generated.C07.swapOnEmpty, LinVerif.Generated.C07.atomicAcquire⟩
 
 namespace Neg
 
 /-- WITNESS 1 (flush window): entry 1 brings a NEW metric name after the metadata flush of the
 running flush round and before the family is frozen. -/
 def windowTrace : List Ev :=
-  [.append 0 0, .applyBegin, .applyWrite, .applyCommit,
+  [.append 0 0, .applyBegin, .applyTake, .applyAcquire, .applyWrite, .applyCommit,
    .metaPrepare, .metaFlushMetric, .metaFlushTagv,
-   .append 1 0, .applyBegin, .applyWrite, .applyCommit,
+   .append 1 0, .applyBegin, .applyTake, .applyAcquire, .applyWrite, .applyCommit,
    .indexPrepare, .indexFlush, .freeze, .dataCommit, .ackCallback,
    .crash, .recover, .rewind]
 
@@ -262,25 +343,25 @@ theorem window_breaks_resolves (cfg : Cfg) :
     (⟨1, 1, 0⟩ : Row) ∈ fileRows st ∧ st.groupAck = 1 ∧ st.stored = some 1 ∧
     1 ∉ st.metric.dur ∧ ¬ Resolves st := by
   cases cfg with
-  | mk b => cases b <;> decide
+  | mk a b => cases a <;> cases b <;> decide
 
 /-- WITNESS 2 (empty prepare wedges the dictionary): three flush rounds in the code's order and
 with NO write inside any round; the second round finds nothing new, its `PrepareFlush` parks an
 empty map in `immutable`, `Flush` does not reset it, so the third round's prepare does not swap
 and the name created before it never reaches the disk. Only for the current `PrepareFlush` shape. -/
 def wedgeTrace : List Ev :=
-  [.append 0 0, .applyBegin, .applyWrite, .applyCommit] ++ flushRound ++
-  [.append 0 0, .applyBegin, .applyWrite, .applyCommit] ++ flushRound ++
-  [.append 1 0, .applyBegin, .applyWrite, .applyCommit] ++ flushRound ++
+  [.append 0 0, .applyBegin, .applyTake, .applyAcquire, .applyWrite, .applyCommit] ++ flushRound ++
+  [.append 0 0, .applyBegin, .applyTake, .applyAcquire, .applyWrite, .applyCommit] ++ flushRound ++
+  [.append 1 0, .applyBegin, .applyTake, .applyAcquire, .applyWrite, .applyCommit] ++ flushRound ++
   [.crash, .recover, .rewind]
 
 theorem wedge_breaks_resolves :
-    let st := run ⟨false⟩ St.init wedgeTrace
+    let st := run ⟨false, false⟩ St.init wedgeTrace
     (⟨2, 1, 0⟩ : Row) ∈ fileRows st ∧ st.groupAck = 2 ∧ st.stored = some 2 ∧
     1 ∉ st.metric.dur ∧ ¬ Resolves st := by decide
 
 /-- with `PrepareFlush` also swapping an empty immutable map the same history resolves -/
-theorem wedge_fixed_resolves : Resolves (run ⟨true⟩ St.init wedgeTrace) := by decide
+theorem wedge_fixed_resolves : Resolves (run ⟨true, false⟩ St.init wedgeTrace) := by decide
 
 /-- the full-strength statement is refuted (for every code shape) -/
 theorem not_resolves (cfg : Cfg) : ¬ ∀ evs : List Ev, Resolves (run cfg St.init evs) := fun h =>
@@ -289,11 +370,57 @@ theorem not_resolves (cfg : Cfg) : ¬ ∀ evs : List Ev, Resolves (run cfg St.in
 /-- the window history violates exactly clause (a) of the discipline, at the `freeze` -/
 theorem window_not_disciplined (cfg : Cfg) : ¬ Disciplined cfg St.init windowTrace := by
   cases cfg with
-  | mk b => cases b <;> decide
+  | mk a b => cases a <;> cases b <;> decide
 
-theorem wedge_not_disciplined : ¬ Disciplined ⟨false⟩ St.init wedgeTrace := by decide
+theorem wedge_not_disciplined : ¬ Disciplined ⟨false, false⟩ St.init wedgeTrace := by decide
+
+/-- WITNESS 3 (writer registered too late): entry 1's `WriteRows` has looked its memory database
+up; before it registers as writer a complete `Flush` of that database runs (it holds entry 0 and
+is not empty): sequence 0 is stored and acknowledged, the database is closed. Entry 1's row then
+goes into the closed database, its sequence is committed; entry 2 and the next flush store and
+acknowledge sequence 2. -/
+def gapTrace : List Ev :=
+  [.append 0 0] ++ applyRound ++
+  [.metaPrepare, .metaFlushMetric, .metaFlushTagv, .indexPrepare, .indexFlush] ++
+  [.append 0 0, .applyBegin, .applyTake, .freeze, .dataCommit, .ackCallback,
+   .applyAcquire, .applyWrite, .applyCommit] ++
+  [.append 0 0] ++ applyRound ++ flushRound ++ [.crash, .recover, .rewind]
+
+/-- entry 1 is in no data file although the log is acknowledged up to 2: `no_loss` fails for the
+current shape of `WriteRows` (and the history is, of course, not `GapFree`) -/
+theorem gap_loses_entry :
+    let st := run ⟨true, false⟩ St.init gapTrace
+    st.appended = 2 ∧ st.groupAck = 2 ∧ st.stored = some 2 ∧ st.walGone = false ∧
+    (∀ r ∈ fileRows st, r.seq ≠ 1) ∧ (fileRows st).length = 2 ∧
+    ¬ GapFree ⟨true, false⟩ St.init gapTrace := by decide
+
+/-- with the writer registered inside the mutex section the same schedule keeps the entry: the flush
+waits for the write (`dataCommit` is not enabled), the row is part of the flushed table -/
+theorem gap_closed_keeps_entry :
+    ∃ r ∈ fileRows (run ⟨true, true⟩ St.init gapTrace), r.seq = 1 := by decide
+
+theorem no_loss_fails_for_gap_shape : ¬ ∀ (evs : List Ev) (s : Int),
+    0 ≤ s → s ≤ (run ⟨true, false⟩ St.init evs).appended →
+    (∃ r ∈ fileRows (run ⟨true, false⟩ St.init evs), r.seq = s ∧
+        (run ⟨true, false⟩ St.init evs).log[s.toNat]? = some (r.metric, r.tagv)) ∨
+    ((run ⟨true, false⟩ St.init evs).groupAck < s ∧ (run ⟨true, false⟩ St.init evs).gcLow ≤ s ∧
+      (run ⟨true, false⟩ St.init evs).walGone = false) := by
+  intro h
+  have := h gapTrace 1 (by decide) (by decide)
+  revert this
+  decide
 
 end Neg
+
+/-! ### WAL garbage collection (non-vacuity of `walExpire`) -/
+
+/-- an expired family's log is NOT removed while an entry is consumed but not flushed; it is removed
+once everything is acknowledged, and a crash afterwards loses nothing -/
+example :
+    (run ⟨true, false⟩ St.init ([.append 0 0] ++ applyRound ++ [.walExpire])).walGone = false ∧
+    (run ⟨true, false⟩ St.init ([.append 0 0] ++ applyRound ++ flushRound ++ [.walExpire])).walGone = true ∧
+    (let st := run ⟨true, false⟩ St.init ([.append 0 0] ++ applyRound ++ flushRound ++ [.walExpire, .crash, .recover])
+     st.phase = .running ∧ (fileRows st).length = 1) := by decide
 
 /-! ### observation (b): flush racing replication (NOT a violation of C07 as stated) -/
 
@@ -301,13 +428,13 @@ end Neg
 with the captured sequence 0; after a crash entry 1 is above the stored sequence, is replayed, and
 its row exists twice (duplicate for a sum field). -/
 def raceTrace : List Ev :=
-  [.append 0 0, .applyBegin, .applyWrite, .applyCommit,
+  [.append 0 0, .applyBegin, .applyTake, .applyAcquire, .applyWrite, .applyCommit,
    .metaPrepare, .metaFlushMetric, .metaFlushTagv, .indexPrepare, .indexFlush,
-   .append 0 0, .applyBegin, .applyWrite, .freeze, .dataCommit, .ackCallback, .applyCommit,
-   .crash, .recover, .rewind, .applyBegin, .applyWrite, .applyCommit]
+   .append 0 0, .applyBegin, .applyTake, .applyAcquire, .applyWrite, .freeze, .dataCommit, .ackCallback, .applyCommit,
+   .crash, .recover, .rewind, .applyBegin, .applyTake, .applyAcquire, .applyWrite, .applyCommit]
 
 theorem race_replays_flushed_entry :
-    let st := run ⟨false⟩ St.init raceTrace
+    let st := run ⟨false, false⟩ St.init raceTrace
     st.stored = some 0 ∧ st.groupAck = 0 ∧ (⟨1, 0, 0⟩ : Row) ∈ fileRows st ∧ (⟨1, 0, 0⟩ : Row) ∈ st.memMut := by
   decide
 
